@@ -14,6 +14,9 @@
   proper subclass first, left method, reflected method, TypeError).
   Values are scripted: the outcome of every comparison between two (keyed) field values is part of
   the case, so the results are parametric in the data; the comparisons performed are traced.
+  The model is a pure function of the *current* values: the harness also runs histories (earlier
+  comparisons, then key results / field values changed behind the instance, assoc/evolve/copy) and
+  every comparison must still be the tuple comparison of the values current at that time.
   The values' reflected comparisons are assumed to agree (`yv > xv` is `xv < yv` …), as Python's data
   model asks: the case gives the outcomes of `xv ∘ yv`, those of `yv ∘ xv` are their mirror.
 -/
@@ -210,6 +213,9 @@ structure Obs where
   ops       : ResQ
   /-- `y < x`, `y <= x`, `y > x`, `y >= x` -/
   rops      : ResQ
+  /-- attributes found on the operands after the comparisons that are not fields (comparing is pure:
+      `_make_order`'s closures store nothing on the instances) -/
+  residue   : List String
   deriving DecidableEq, Repr, FromJson, ToJson, Inhabited
 
 /-! ### `_determine_attrib_eq_order(cmp, eq, order, default_eq=True)` -/
@@ -443,13 +449,15 @@ def model (c : Case) : Obs :=
       direct := ⟨(directCall c .lt).1, (directCall c .le).1, (directCall c .gt).1, (directCall c .ge).1⟩,
       trace := ⟨(directCall c .lt).2, (directCall c .le).2, (directCall c .gt).2, (directCall c .ge).2⟩,
       ops := ⟨binop c .lt true, binop c .le true, binop c .gt true, binop c .ge true⟩,
-      rops := ⟨binop c .lt false, binop c .le false, binop c .gt false, binop c .ge false⟩ }
+      rops := ⟨binop c .lt false, binop c .le false, binop c .gt false, binop c .ge false⟩,
+      residue := [] }
   else
     { clsErr := clsErr c, fieldErrs := fieldErrs c, built := false,
       status := ⟨.dflt, .dflt, .dflt, .dflt⟩,
       direct := ⟨.other, .other, .other, .other⟩,
       trace := ⟨[], [], [], []⟩,
       ops := ⟨.other, .other, .other, .other⟩,
-      rops := ⟨.other, .other, .other, .other⟩ }
+      rops := ⟨.other, .other, .other, .other⟩,
+      residue := [] }
 
 end Attrs.C09
